@@ -34,6 +34,9 @@ pub enum SOp {
     /// Unix only: close the receiving socket (ECONNREFUSED) / bind it again
     CloseRx,
     ReopenRx,
+    /// Unix only: a new receiver takes over the path while the old socket stays
+    /// open (socket file rotated): everything must go to the new one
+    RotateRx,
 }
 
 #[derive(Serialize, Deserialize, Clone, Debug)]
@@ -93,6 +96,8 @@ enum Rx {
         decoy: UnixDatagram,
         filler: UnixDatagram,
         clogged: bool,
+        /// former owners of the path, still open
+        retired: Vec<UnixDatagram>,
     },
 }
 
@@ -126,6 +131,7 @@ impl Rx {
                     decoy,
                     filler,
                     clogged: false,
+                    retired: Vec::new(),
                 })
             }
         }
@@ -223,6 +229,36 @@ impl Rx {
             *target = None;
             *clogged = false;
         }
+    }
+
+    fn rotate_rx(&mut self) {
+        if let Rx::Unix { target, path, retired, clogged, .. } = self {
+            if *clogged {
+                return;
+            }
+            if let Some(old) = target.take() {
+                retired.push(old);
+            }
+            let _ = std::fs::remove_file(&*path);
+            if let Ok(t) = UnixDatagram::bind(&*path) {
+                let _ = t.set_nonblocking(true);
+                *target = Some(t);
+            }
+        }
+    }
+
+    /// datagrams that reached a socket which no longer owns the path
+    fn retired_received(&self) -> usize {
+        let mut n = 0;
+        if let Rx::Unix { retired, .. } = self {
+            let mut buf = vec![0u8; 65536];
+            for r in retired {
+                while r.recv(&mut buf).is_ok() {
+                    n += 1;
+                }
+            }
+        }
+        n
     }
 
     fn reopen_rx(&mut self) {
@@ -438,6 +474,10 @@ pub fn run_case(case: &SockCase, ctx: &Ctx) -> SockRun {
         Some(Some(c)) => c,
     };
     let buffered = case.buffered.is_some();
+    let size_limit: usize = match case.transport {
+        Transport::Udp => 65_507,
+        Transport::Unix => 200_000,
+    };
     // materialise metrics
     let metrics: Vec<Option<Vec<u8>>> = case
         .ops
@@ -448,7 +488,7 @@ pub fn run_case(case: &SockCase, ctx: &Ctx) -> SockRun {
             _ => None,
         })
         .collect();
-    let fault_free = !case.ops.iter().any(|o| matches!(o, SOp::Clog | SOp::CloseRx))
+    let fault_free = !case.ops.iter().any(|o| matches!(o, SOp::Clog | SOp::CloseRx | SOp::RotateRx))
         && !metrics.iter().flatten().any(|m| m.len() > 65_000);
     let hint: Vec<usize> = if buffered && fault_free {
         let ops: Vec<(Option<Vec<u8>>, bool)> = case
@@ -558,9 +598,19 @@ pub fn run_case(case: &SockCase, ctx: &Ctx) -> SockRun {
                                 truth.bytes_sent += *n as u64;
                             }
                         }
-                        Err(_) => {
+                        Err(e) => {
                             if !got.is_empty() {
                                 findings.push((SRule::Wire, format!("emit returned an error but {} datagram(s) arrived", got.len())));
+                            }
+                            if !rx.is_closed() && !rx.is_clogged() && m.len() <= size_limit {
+                                findings.push((
+                                    SRule::Wire,
+                                    format!(
+                                        "emit of a {}-byte metric failed with {:?} although a receiver is bound at the address given at construction and is idle",
+                                        m.len(),
+                                        e.kind
+                                    ),
+                                ));
                             }
                             truth.packets_dropped += 1;
                             truth.bytes_dropped += m.len() as u64;
@@ -584,7 +634,13 @@ pub fn run_case(case: &SockCase, ctx: &Ctx) -> SockRun {
                                 pending_bytes = (pending_bytes + m.len() + 1).saturating_sub(sent_bytes);
                             }
                         }
-                        Err(_) => {
+                        Err(e) => {
+                            if !rx.is_closed() && !rx.is_clogged() && m.len().max(pending_bytes) <= size_limit {
+                                findings.push((
+                                    SRule::Wire,
+                                    format!("buffered emit failed with {:?} although a receiver is bound at the address given at construction and is idle", e.kind),
+                                ));
+                            }
                             truth.packets_dropped += 1;
                             // the refused datagram: the oversized metric itself, or everything
                             // pending (C05/C07: a flush carries all of it); with nothing pending
@@ -635,6 +691,12 @@ pub fn run_case(case: &SockCase, ctx: &Ctx) -> SockRun {
                     Ok(Err(e)) => {
                         st.failed_calls += 1;
                         if buffered {
+                            if !rx.is_closed() && !rx.is_clogged() && pending_bytes <= size_limit {
+                                findings.push((
+                                    SRule::Wire,
+                                    format!("flush failed with {:?} although a receiver is bound at the address given at construction and is idle", e.kind()),
+                                ));
+                            }
                             truth.packets_dropped += 1;
                             truth.bytes_dropped += pending_bytes as u64;
                         }
@@ -671,6 +733,18 @@ pub fn run_case(case: &SockCase, ctx: &Ctx) -> SockRun {
                 rx.close_rx()
             }
             SOp::ReopenRx => rx.reopen_rx(),
+            SOp::RotateRx => {
+                let stray = rx.unclog();
+                reconcile(&mut findings, &mut truth, &mut clogged_ok, stray, buffered);
+                rx.rotate_rx()
+            }
+        }
+        let misdirected = rx.retired_received();
+        if misdirected > 0 {
+            findings.push((
+                SRule::Wire,
+                format!("{} datagram(s) were delivered to a socket that no longer owns the path given at construction", misdirected),
+            ));
         }
         // telemetry at this quiescent point
         if matches!(op, SOp::Emit(_) | SOp::EmitSized(_) | SOp::Flush) {
@@ -891,7 +965,7 @@ pub fn sock_case(g: SGen) -> BoxedStrategy<SockCase> {
                 5 => sized(cap, transport, g.faults).prop_map(SOp::EmitSized),
                 2 => Just(SOp::Flush),
                 (if fault_ops { 2 } else { 0 }) => prop_oneof![Just(SOp::Clog), Just(SOp::CloseRx)],
-                (if fault_ops { 2 } else { 0 }) => prop_oneof![Just(SOp::Unclog), Just(SOp::ReopenRx)],
+                (if fault_ops { 2 } else { 0 }) => prop_oneof![Just(SOp::Unclog), Just(SOp::ReopenRx), Just(SOp::RotateRx)],
             ];
             (
                 Just(transport),
